@@ -80,7 +80,7 @@ CHECKS = {
     technique="TLA+ model of the launch, all interleavings by TLC; TLC-simulated schedules replayed thread by thread on the real kernel body; trace validation by TLC",
     design="5/C13"),
  "C14": dict(
-    text="Functional.tla models functors, composition and combinators as a stack machine over abstract terms; TLC checks associativity of composition for every split, that the computed arity is exactly what the machine consumes, that surplus operands are passed on, and combinator laws, on all compositions up to the bound; for the programs of the program machine the driver builds the composed view and the composed functor side by side and runs: the direct view, the composition applied at once and one operand at a time (currying), both groupings, the extracted composition applied to the extracted operands, the identity and order of the extracted operands, and structural facts of the compute graph; TraceOps.tla validates every variant against the program's denotation; compositions with the combinators swap / dup / dig2 / bury2 (every composition of <= 2, thorough 3, functors over an 8-functor alphabet, exported by TLC from StackMachine.tla) are applied to real operands under five splits of the operand list and both groupings and the resulting stack must be the stack machine's, interpreted on the operand values; ComputeGraph.tla defines the compute graph of an expression DAG (TLC: the implementation-shaped left-to-right merge with its 'node already present' shortcut equals the definition on every expression of <= 3 / 4 terms) and drv_graph reports the extracted graphs of 15 expressions with shared leaves / sub-expressions, whose exact node and edge sets TraceOps validates.",
+    text="Functional.tla models functors, composition and combinators as a stack machine over abstract terms; TLC checks associativity of composition for every split, that the computed arity is exactly what the machine consumes, that surplus operands are passed on, and combinator laws, on all compositions up to the bound; for the programs of the program machine the driver builds the composed view and the composed functor side by side and runs: the direct view, the composition applied at once and one operand at a time (currying), both groupings, the extracted composition applied to the extracted operands, the identity and order of the extracted operands, and structural facts of the compute graph; TraceOps.tla validates every variant against the program's denotation; compositions with the combinators swap / dup / dig2 / bury2 (every composition of <= 2, thorough 3, functors over an 8-functor alphabet, exported by TLC from StackMachine.tla) are applied to real operands under five splits of the operand list and both groupings and the resulting stack must be the stack machine's, interpreted on the operand values; ComputeGraph.tla defines the compute graph of an expression DAG (TLC: the implementation-shaped left-to-right merge with its 'node already present' shortcut equals the definition on every expression of <= 3 / 4 terms) and drv_graph reports the extracted graphs of 22 expressions with shared leaves / sub-expressions, whose exact node and edge sets TraceOps validates.",
     note="Trusted: TLC, StackMachine.tla / Functional.tla / Denote, drv_functional.cpp, drv_stack.cpp. flip / expand_dims are exercised in first position only (compile-time API limitation). One program class is a known finding (extraction for a binary ufunc applied to another view).",
     technique="TLA+ stack-machine model checked by TLC; TLC-generated programs replayed on real functors/compositions/extraction; trace validation by TLC",
     design="5/C14"),
